@@ -13,7 +13,8 @@
  *   labels-range         k-means labels every object with a cluster < k
  *   centroid-mean        each returned centroid is the mean of the objects carrying its label (non-empty clusters)
  *   nearest-centroid     d(x, own centroid) <= min_c d(x, c) + 2 sqrt(d) 1e-3 for runs that stopped before the
- *                        100-iteration cap (the documented stopping rule compares centroids to 1e-3 per coordinate)
+ *                        100-iteration cap (the documented stopping rule compares centroids to 1e-3 per coordinate);
+ *                        capped runs only if the labels are not even nearest w.r.t. the centroids they were computed from
  *   thread-independence  selections / labels / centroids equal those of the 1-thread run
  *   race                 (ThreadSanitizer build) no TSan report while the routine runs */
 #include "hcommon.h"
@@ -38,7 +39,14 @@
  * whether the run stopped by convergence or by the 100-iteration cap, which the API does not report. */
 void __real_MatrixCopy(matrix *src, matrix **dst);
 static long g_copies = 0;
-void __wrap_MatrixCopy(matrix *src, matrix **dst) { g_copies++; __real_MatrixCopy(src, dst); }
+/* the first copy of every iteration saves the centroids the labelling step is about to use: kept (<= 6 x 6) so that a run
+ * that ends at the iteration cap can still be judged against the centroids its labels were computed from */
+static double g_lastO[6][6]; static int g_lastO_r = 0, g_lastO_c = 0;
+void __wrap_MatrixCopy(matrix *src, matrix **dst) {
+  g_copies++;
+  if ((g_copies & 1) && src && src->row <= 6 && src->col <= 6) { g_lastO_r = (int)src->row; g_lastO_c = (int)src->col; for (size_t i = 0; i < src->row; i++) for (size_t j = 0; j < src->col; j++) g_lastO[i][j] = src->data[i][j]; }
+  __real_MatrixCopy(src, dst);
+}
 /* RNG draws are made by the calling thread only (KMeans initialiser 0, getCentroids, KMeansppCenters): tick */
 static char g_tick[160] = "nonterm|?";
 int __real_randInt(int low, int high);
@@ -216,7 +224,7 @@ static void op_kmeans(void) {
   uivector *l1, *lt; matrix *c1, *ct; initUIVector(&l1); initUIVector(&lt); initMatrix(&c1); initMatrix(&ct);
   snprintf(g_tick, sizeof g_tick, "nonterm|%s|k=%d", fn, k);
   srand_((uint32_t)(seed + 1)); vx_tick_reset(); KMeans(m, (size_t)k, init, l1, c1, 1);
-  race_reset(); srand_((uint32_t)(seed + 1)); vx_tick_reset(); g_copies = 0;
+  race_reset(); srand_((uint32_t)(seed + 1)); vx_tick_reset(); g_copies = 0; g_lastO_r = g_lastO_c = 0;
   KMeans(m, (size_t)k, init, lt, ct, (size_t)th); vx_transition(2);
   long iters = g_copies / 2; race_check(fn, tc);
   double maxabs = hm_maxabs(m);
@@ -244,16 +252,22 @@ static void op_kmeans(void) {
     }
     snprintf(key, sizeof key, "centroid-mean|%s|%s", fn, cl);
     JUDGE(worst <= 1.0, key, "KMeans(%d x %d, k=%d, %s, seed %d, %d threads, data scale %g, %ld iterations): centroid %d is not the mean of the objects labelled %d (%.3g x the rounding allowance)", n, d, k, INIT[init], seed + 1, th, scale, iters, wc, wc, worst);
-    /* each object carries the label of a nearest centroid, up to the documented convergence tolerance */
-    if (iters <= 100) {
-      double allow = 2.0 * sqrt((double)d) * 1e-3, worstx = -INFINITY; int wi = -1;
+    /* each object carries the label of a nearest centroid, up to the documented convergence tolerance.
+     * Stopped before the cap: own-centroid distance <= nearest + 2 sqrt(d) 1e-3 w.r.t. the RETURNED centroids.
+     * Stopped by the cap (101 iterations): the statement promises nothing about the returned centroids; the run is
+     * reported only if the labels are ALSO not a nearest-centroid labelling of the centroids the last labelling step was
+     * given (observed at the MatrixCopy seam) -- a correct implementation passes that at any iteration. */
+    {
+      double allow = 2.0 * sqrt((double)d) * 1e-3, worstx = -INFINITY; int wi = -1, wrongO = 0;
       for (int i = 0; i < n; i++) {
         ld best = -1, own = 0; for (int c = 0; c < k; c++) { ld dd = ref_metric(0, m->data[i], ct->data[c], d); if (best < 0 || dd < best) best = dd; if ((int)lt->data[i] == c) own = dd; }
         if ((double)(own - best) > worstx) { worstx = (double)(own - best); wi = i; }
+        if (g_lastO_r == k && g_lastO_c == d) { best = -1; own = 0; for (int c = 0; c < k; c++) { ld dd = ref_metric(0, m->data[i], g_lastO[c], d); if (best < 0 || dd < best) best = dd; if ((int)lt->data[i] == c) own = dd; } if (own > best + TIE) wrongO++; }
       }
-      snprintf(key, sizeof key, "nearest-centroid|%s|%s", fn, cl);
-      JUDGE(worstx <= allow, key, "KMeans(%d x %d, k=%d, %s, %ld iterations): object %d is %.6g farther from its own centroid than from the nearest one (allowance %.3g)", n, d, k, INIT[init], iters, wi, worstx, allow);
-      vx_log("KMeans n=%d d=%d k=%d init=%s th=%d iters=%ld empty=%d: centroid-mean %.3g x allowance, nearest excess %.3g (allow %.3g)\n", n, d, k, INIT[init], th, iters, empty, worst, worstx, allow);
+      int capped = iters > 100, judgedO = g_lastO_r == k && g_lastO_c == d;
+      snprintf(key, sizeof key, "nearest-centroid|%s|%s%s", fn, cl, capped ? ",iteration-cap" : "");
+      JUDGE(capped ? !(worstx > allow && judgedO && wrongO > 0) : worstx <= allow, key, "KMeans(%d x %d, k=%d, %s, seed %d, %ld iterations%s): object %d is %.6g farther from its own centroid than from the nearest one (allowance %.3g); %d object(s) do not carry a nearest label even w.r.t. the centroids the last labelling step used", n, d, k, INIT[init], seed + 1, iters, capped ? " = cap" : "", wi, worstx, allow, wrongO);
+      vx_log("KMeans n=%d d=%d k=%d init=%s th=%d iters=%ld empty=%d: centroid-mean %.3g x allowance, nearest excess %.3g (allow %.3g), wrong w.r.t. labelling centroids %d\n", n, d, k, INIT[init], th, iters, empty, worst, worstx, allow, wrongO);
     }
     h = hm_hash(ct, uiv_hash(lt, h)) + (uint64_t)(iters > 100);
   }
